@@ -43,8 +43,8 @@ import universe
 from lib import coq_bool, coq_list, coq_nat, coq_pair
 
 COQ_TARGETS = ["theories/Props/C01.vo", "theories/Model/CoreTables.vo"]
-THEOREMS = ["C01_roundtrip", "C01_fuel_unm", "C01_fuel_mar",
-            "C01_refuted_full", "C01_refuted_union_foreign_marshaller"]
+THEOREMS = ["C01_roundtrip", "C01_union_fixpoint", "C01_keys_of_leaf_law", "C01_fuel_unm", "C01_fuel_mar",
+            "C01_refuted_full", "C01_refuted_union_foreign_marshaller", "C01_refuted_fixpoint_noncanonical"]
 UTC = D.timezone.utc
 TD = D.timedelta
 NoneType = type(None)
@@ -159,7 +159,9 @@ def roots_fn(rng, env, classes):
         shared = ("seq", "KTuple", "tuple[{}, ...]", c)
         roots.append(("tuple", "tuple[{}]", [("seq", "KList", "list[{}]", shared),
                                              ("map", "KDict", "dict[{}, {}]", ("leaf", "str"), shared), shared]))
-        roots.append(("newtype", 900, ("alias", 901, ("final", c)))[0:3])
+        roots.append(("final", c))
+        roots.append(("newtype", 900, c))
+        roots.append(("alias", 901, ("seq", "KList", "list[{}]", ("newtype", 902, c))))
     return roots
 
 
@@ -184,7 +186,7 @@ def leaf_instance(reg, s, obj) -> bool:
 
 
 def emit_lv(reg) -> str:
-    pairs = []
+    pairs, kpairs = [], []
     for s in sorted(reg.leaf_py):
         for i, o in enumerate(reg.atom_objs):
             try:
@@ -192,9 +194,42 @@ def emit_lv(reg) -> str:
                     pairs.append(coq_pair(coq_nat(s), coq_nat(i)))
             except Exception:
                 pass
-    str_id = coq_nat(reg.leaves["str"])
-    return ("(fun (s : nat) (v : pv) => match v with PAtom a => existsb (fun p => Nat.eqb s (fst p) && Nat.eqb a (snd p)) "
-            f"{coq_list(pairs, '(nat * nat)')} | PKey _ => Nat.eqb s {str_id} | _ => false end)")
+        for name, f in reg.fields.items():
+            try:
+                if leaf_instance(reg, s, name):
+                    kpairs.append(coq_pair(coq_nat(s), coq_nat(f)))
+            except Exception:
+                pass
+    return ("(fun (s : nat) (v : pv) => match v with "
+            f"PAtom a => existsb (fun p => Nat.eqb s (fst p) && Nat.eqb a (snd p)) {coq_list(pairs, '(nat * nat)')} "
+            f"| PKey f => existsb (fun p => Nat.eqb s (fst p) && Nat.eqb f (snd p)) {coq_list(kpairs, '(nat * nat)')} "
+            "| _ => false end)")
+
+
+NORM = ("Fixpoint norm_pv (c : nat -> nat) (v : pv) : pv := match v with PAtom a => PAtom (c a) | PKey f => PKey f\n"
+        "  | PSeq k l => PSeq k (map (norm_pv c) l)\n"
+        "  | PDict k l => PDict k (map (fun kv => (norm_pv c (fst kv), norm_pv c (snd kv))) l)\n"
+        "  | PObj cc l => PObj cc (map (fun fv => (fst fv, norm_pv c (snd fv))) l)\n"
+        "  | PNamed cc l => PNamed cc (map (norm_pv c) l) end.\n")
+
+
+def atom_classes(reg) -> str:
+    """atoms the statement does not distinguish (same class, ==, same utcoffset; e.g. tzinfo objects of different
+    libraries): each atom is mapped to the first atom of its class"""
+    arms = []
+    objs = reg.atom_objs
+    for i, o in enumerate(objs):
+        if not isinstance(o, (D.datetime, D.time)):
+            continue
+        for j in range(i):
+            p = objs[j]
+            try:
+                if type(p) is type(o) and p == o and p.utcoffset() == o.utcoffset() and getattr(p, "fold", 0) == getattr(o, "fold", 0):
+                    arms.append(f"| {i} => {j}")
+                    break
+            except Exception:
+                pass
+    return "(fun a : nat => match a with " + " ".join(arms) + " | _ => a end)"
 
 
 def hypotheses_in_coq(run, groups, records, tag="hyp", per_file=12):
@@ -205,7 +240,7 @@ def hypotheses_in_coq(run, groups, records, tag="hyp", per_file=12):
         by_group.setdefault(id(rec.group), []).append(rec)
     for fi in range(0, len(groups), per_file):
         chunk = groups[fi:fi + per_file]
-        text = coremodel.HEADER + "Require Import TL.Model.CoreC01.\nFrom Coq Require Import Arith Bool.\n"
+        text = coremodel.HEADER + "Require Import TL.Model.CoreC01.\nFrom Coq Require Import Arith Bool.\n" + NORM
         names = []
         for gi, g in enumerate(chunk):
             nm = f"G{fi + gi}"
@@ -214,13 +249,14 @@ def hypotheses_in_coq(run, groups, records, tag="hyp", per_file=12):
             inputs = coq_list([coq_pair(g.reg.emit_ty(g.roots[r.ri]), g.reg.enc(r.value)) for r in recs], "(ty * pv)")
             # enc may have registered new atoms: emit lv after the inputs
             extra = (f"Definition lv := {emit_lv(g.reg)}.\n"
+                     f"Definition acls := {atom_classes(g.reg)}.\n"
                      f"Definition inputs : list (ty * pv) :=\n  {inputs}.\n"
                      f"Definition code (tv : ty * pv) : nat :=\n"
                      f"  let t := fst tv in let v := snd tv in\n"
                      f"  (if valid rt lv E {coremodel.FUEL} t v then 4 else 0) + (if c01_guard rt E {coremodel.FUEL} t v then 2 else 0)\n"
                      f"  + (if union_unamb rt lv E {coremodel.FUEL} t v then 1 else 0)\n"
                      f"  + match mar rt E {coremodel.FUEL} t v with\n"
-                     f"    | Ok w => match unm rt E {coremodel.FUEL} t w with Ok v' => if pv_sim v' v then 8 else 0 | _ => 0 end\n"
+                     f"    | Ok w => match unm rt E {coremodel.FUEL} t w with Ok v' => if pv_sim (norm_pv acls v') (norm_pv acls v) then 8 else 0 | _ => 0 end\n"
                      f"    | _ => 0 end.\n"
                      f"Definition codes := map code inputs.\n")
             text += base.replace(f"End {nm}.\n", extra + f"End {nm}.\n")
@@ -440,10 +476,7 @@ def diagnose_union(uspec, u):
                     res["detail"] += f"; and re-marshals it as {back[1]!r}"
     # which member's marshaller answers first (declared order)?
     for e in members:
-        if strip_wrap(e)[0] == "none":
-            r = ("ok", u)       # NoOpMarshaller
-        else:
-            r = t_marshal(ann_of(e), u)
+        r = t_marshal(ann_of(e), u)
         if r[0] == "ok":
             if not any(e is m for m in own):
                 res["foreign"] = True
@@ -454,6 +487,9 @@ def diagnose_union(uspec, u):
 
 def check_value(ann, spec, v, stats, ctx):
     """the statement on one (T, v); returns a failure dict or None"""
+    if not is_valid(spec, v):
+        stats["skipped_not_a_valid_instance"] += 1
+        return None
     stats["evaluations"] += 1
     m = t_marshal(ann, v)
     if m[0] != "ok":
@@ -470,22 +506,24 @@ def check_value(ann, spec, v, stats, ctx):
     foreign = any(d["foreign"] for d in diags)
     noncanon = any(d["noncanon"] for d in diags)
     detail = "; ".join(d["detail"] for d in diags if d["detail"])[:600]
+    if foreign and not (r[0] == "ok" and ambiguous):
+        # root cause: the member whose marshaller answers first is not a member the value is an instance of
+        return _fail("union-foreign-marshaller", ann, v, repr(r[1])[:300] if r[0] == "ok" else r[1], repr(v), ctx,
+                     wire=m[1], detail=detail, unions=len(pos), ambiguous=ambiguous)
     if r[0] != "ok":
-        cls = "unmarshal-raises"
-        if ambiguous:
-            cls = "ambiguous-unmarshal-raises"
+        cls = "ambiguous-unmarshal-raises" if ambiguous else "unmarshal-raises"
         return _fail(cls, ann, v, r[1], repr(v), ctx, wire=m[1], detail=detail, unions=len(pos))
     if not ambiguous:
-        cls = "roundtrip-union-foreign-marshaller" if foreign else "roundtrip"
-        return _fail(cls, ann, v, repr(r[1]), repr(v), ctx, wire=m[1], detail=detail, unions=len(pos))
+        return _fail("roundtrip", ann, v, repr(r[1]), repr(v), ctx, wire=m[1], detail=detail, unions=len(pos))
     stats["ambiguous"] += 1
     m2 = t_marshal(ann, r[1])
-    if m2[0] == "ok" and wire_equal(m2[1], m[1]):
+    if m2[0] == "ok" and m2[1] == m[1]:          # the statement says `==` (1 == 1.0 == True)
         stats["fixpoint_ok"] += 1
         return None
-    cls = "fixpoint-noncanonical-member-text" if noncanon else ("fixpoint-foreign-marshaller" if foreign else "fixpoint")
+    cls = ("union-foreign-marshaller" if foreign else
+           "fixpoint-noncanonical-member-text" if noncanon else "fixpoint")
     return _fail(cls, ann, v, repr(m2[1]) if m2[0] == "ok" else m2[1], repr(m[1]), ctx, wire=m[1], detail=detail,
-                 unions=len(pos), unmarshalled=repr(r[1])[:300])
+                 unions=len(pos), unmarshalled=repr(r[1])[:300], ambiguous=True)
 
 
 def wire_equal(a, b) -> bool:
@@ -1044,16 +1082,22 @@ def correspond(run: lib.Run):
             continue
         desc = {"type": repr(rec.pytype)[:200], "value": repr(rec.value)[:300], "code": c}
         leaves_ok = not _has_foreign_leaf(rec.tdesc)
-        if not (c & 4) and leaves_ok and rec.wire[0] == "ok":
+        try:
+            py_valid = leaves_ok and is_valid(spec_of_desc(rec.tdesc, rec.group.env, rec.group.mod), rec.value)
+        except Exception:
+            py_valid = None
+        if py_valid is not None and bool(c & 4) != bool(py_valid) and leaves_ok:
+            desc["python_is_valid"] = py_valid
             not_valid.append(desc)
         if (c & 7) == 7:
             in_scope += 1
             if not (c & 8):
+                desc["theorem_instance_broken"] = True
                 instance_broken.append(desc)
-    run.record_corr("theorem-hypotheses-on-generated-values", len(codes), not_valid + instance_broken, in_scope,
+    run.record_corr("theorem-hypotheses-on-generated-values", len(codes), instance_broken + not_valid, in_scope,
                     {"code_histogram(valid*4+guard*2+unamb*1,+8=model round trip)": {str(k): v for k, v in sorted(hist.items())},
                      "inside_all_hypotheses": in_scope,
-                     "generated_valid_value_rejected_by_valid": len(not_valid),
+                     "model_valid_disagrees_with_oracle_is_valid": len(not_valid),
                      "hypotheses_hold_but_model_round_trip_fails": len(instance_broken)})
     sample_laws(run, records)
 
